@@ -36,6 +36,10 @@ def compare_line(line, model):
         return []
     if "bad-op" in model:
         return [("bad-op", None, model["bad-op"])]
+    if line["op"] == "genfun" and impl["exc"] == "ZeroDivisionError":
+        # C13 holds "provided no division by zero occurs": the generated code runs Python's unguarded
+        # operators on plain containers; the rest of this history is outside the correspondence
+        return [("stop-history", None, None)]
     diffs = []
     if impl["exc"] != model.get("exc"):
         diffs.append(("exc", impl["exc"], model.get("exc")))
@@ -56,7 +60,7 @@ def compare_line(line, model):
         diffs.append(("sup", isup, model["sup"]))
     if impl["frozen"] != model.get("frozen"):
         diffs.append(("frozen", impl["frozen"], model.get("frozen")))
-    if line["op"] in ("set", "setexpr", "iop"):
+    if line["op"] in ("set", "setexpr", "iop", "genfun"):
         if model.get("sched") == "bad":
             diffs.append(("schedule", line.get("order"), model.get("order")))
         if impl["trace"] != model["trace"]:
